@@ -8,9 +8,11 @@ THM_MODULES = ["Minicbor.Thm.C09"]
 P = "Minicbor.C09."
 REQUIRED = [P + n for n in """dec_roundtrip fields_roundtrip vars_roundtrip derive_roundtrip derive_roundtrip_exact_length
 encVars_eq blob_rt derive_wrong_tag derive_wrong_tag_enum derive_missing_tag resolve_missing derive_missing_mandatory
-derive_unknown_variant derive_enum_indefinite_wrapper_rejected borrowed_leaf_is_input_slice null_clash_counterexample""".split()]
+derive_unknown_variant derive_enum_indefinite_wrapper_rejected borrowed_leaf_is_input_slice null_clash_counterexample
+derive_decode_reframed_partial derive_decode_reframed_counterexample_K8 derive_decode_reframed_statement_false
+fieldsDec_indef derive_decode_indefinite_struct""".split()]
 REQUIRED += ["Minicbor.Derive." + n for n in """fieldsDec_rt runAt_hit runAt_miss arrLoopN_cells mapLoopN_stmts resolve_inv nilu_rt
-optionDec_some optionDec_none vecDec_rt""".split()]
+optionDec_some optionDec_none vecDec_rt arrLoopI_cells mapLoopI_stmts datatype_startNB""".split()]
 PACKAGES = ["dgen"]
 prepare = base.prepare
 RULE = ("ddec <type> <hex>: for every type definition and value of the C08 corpus (same grammar, same presence combinations and boundary values): "
@@ -124,7 +126,32 @@ def streams(rng, tier):
         st = Stream(name, "dgen", [r[0] for r in rows], model_ops=[r[1] for r in rows], judge=judge, rule=rule)
         st.shrinkable = False
         return st
-    return [mk("derive-roundtrip", rt, RULE),
+
+    # --- the implementation's OWN bytes: first `denc` on the implementation, then `ddec` exactly those bytes
+    own_rows = base.enc_cases(c)
+
+    def enc_judge(op, impl, model, spec):
+        return "ok" if impl.split(" ")[0] == model.split(" ")[0] else "corr"      # the bytes themselves are C08's business
+    own_enc = Stream("derive-own-encoding", "dgen", [r[0] for r in own_rows], model_ops=[r[1] for r in own_rows], judge=enc_judge,
+                     rule="denc <type> <value> on the implementation: produces the bytes the next stream decodes")
+    own_enc.shrinkable = False
+    yield own_enc
+    res = getattr(own_enc, "impl_results", None)
+    if res is not None:
+        own = []
+        for (eop, mop, _sop, _ref, ty, v), line in zip(own_rows, res):
+            hx = line.split(" ")[0]
+            if hx in ("bad-op", "panic", "crash") or line.startswith("crash"):
+                continue
+            name = eop.split(" ")[1]
+            nbytes = 0 if hx == "-" else len(hx) // 2
+            op = f"ddec {name} {hx} {a} #own"
+            own.append((op, f"ddec {dg.proto(ty)} {hx}"))
+            exp[op] = None if dg.null_clash(ty, v) else ("line", ok_line(ty, v, nbytes))
+        yield mk("derive-roundtrip-own-bytes", own,
+                 "ddec <type> <the bytes the implementation's derived Encode just wrote for that value>: the derived decoder must return the value "
+                 "(skipped fields defaulted), consume exactly those bytes, and borrow / own as declared")
+    yield from [mk("derive-roundtrip", rt, RULE),
             mk("derive-reframed", rf, "re-framed encodings (indefinite containers, widened heads) decode to the same value and are consumed exactly"),
             mk("derive-errors", er, "wrong / missing tag, missing mandatory field, unknown top-level variant are errors of the documented class"),
             mk("derive-prefixes", pf, "strict prefixes of an encoding never decode"),
@@ -133,5 +160,18 @@ def streams(rng, tier):
 
 
 def replay_streams(rp):
+    """re-create the stream the op came from (the oracle lives in the stream's closure) and keep only that op."""
+    import random
     op = rp["original_op"] if "original_op" in rp else rp["op"]
+    tier = "thorough" if rp.get("tier") == "thorough" else "quick"
+    for t in (tier, "thorough" if tier == "quick" else "quick"):
+        for st in streams(random.Random(base.seed_now()), t):
+            if st.name == "derive-own-encoding" and "#own" in op:
+                from verifkit.runner import eval_stream
+                st.impl_results, st.model_results, _ = eval_stream(st)     # the next stream is derived from these bytes
+            if op in st.ops:
+                i = st.ops.index(op)
+                r = Stream("replay", "dgen", [op], model_ops=[st.model_ops[i]], judge=st.judge)
+                r.shrinkable = False
+                return [r]
     return [Stream("replay", "dgen", [op], model_ops=[rp["model_op"]])]
